@@ -6,17 +6,10 @@ import hashlib
 import struct
 from .common import load_corpus, rbytes
 
-MAKE_TARGETS = ['Proofs/Merkle.vo']
+MAKE_TARGETS = ['Proofs/Merkle.vo', 'Proofs/Weight.vo']
 TIES = []
 ALLOWED_AXIOMS = []
-PARTIAL = [
-    'C15_weight_param / C15_block_weight_param are PARAMETRIC in the serialised-size functions: they become the '
-    'property\'s weight clause once coq/Model/Wire.v instantiates size_full := |wire_tx t|, size_stripped := '
-    '|wire_tx_stripped t|, strip, wit_is_null, n_vin, n_vout and proves the two hypotheses '
-    '(size_full (strip t) = size_stripped t; wit_is_null t = true -> size_full t = size_stripped t). '
-    'Until then engines 1505/1506 check both the weight formulas and these two hypotheses on every generated '
-    'transaction, with the sizes measured on IMPL.',
-]
+PARTIAL = []   # the parametric weight theorems are instantiated with the wire model in Proofs/Weight.v (C15_tx_weight, C15_block_weight)
 ASSUMPTIONS = [
     'CPython list / bytes / hashlib semantics are modelled, not verified (Common/Hash.v sha256d is checked '
     'against hashlib by every merkle case)',
@@ -241,4 +234,11 @@ def generate(rng, tier, boost):
         cases.append((1506, [[weight_tx(rng) for _ in range(rng.randrange(0, 6))]]))
     for n in (252, 253, 254):                           # CompactSize boundary of the count
         cases.append((1506, [[small_tx(rng) for _ in range(n)]]))
+    # weights against the wire model (engines 1507/1508): transactions/blocks as values
+    from . import wiregen as W
+    for _ in range(400 if (tier == 'thorough' or boost) else 60):
+        t = W.rand_tx(rng, nout=rng.choice([0, 1, 1, 2, 3]))
+        cases.append((1507, [t]))
+    for _ in range(100 if (tier == 'thorough' or boost) else 12):
+        cases.append((1508, [W.rand_block(rng)]))
     return cases
